@@ -99,6 +99,15 @@ theorem shift_add {f : Frame} {n : Nat} (hr : f.RectN n) (p q : Int) (hp : inInt
     rw [if_pos h2, if_pos ⟨h1, h2⟩]
   · rw [if_neg h2, if_neg (fun h => h2 h.2)]
 
+/-- a shift by at least the height of the frame (either direction, up to MinInt64) leaves nothing but nil -/
+theorem shift_beyond_all_nil {f : Frame} {n : Nat} (hr : f.RectN n) (p : Int) (hp : inInt64 p) (hn : (n : Int) < 2 ^ 62)
+    (hbig : (n : Int) ≤ p ∨ p ≤ -(n : Int)) (k : Str) (c : Col) (hk : (k, c) ∈ f) (i : Nat) (hi : i < n) :
+    ∃ c', (k, c') ∈ f.shift p ∧ c'.data.length = n ∧ c'.data.getD i .nil = .nil := by
+  obtain ⟨c', hm, _, hl, hc⟩ := shift_cell hr p hp hn k c hk i hi
+  refine ⟨c', hm, hl, ?_⟩
+  rw [hc, if_neg]
+  rcases hbig with h | h <;> omega
+
 /-- non-vacuity: a concrete frame meets the hypotheses and a shift by MinInt64 blanks it -/
 example : (Frame.shift [([97], { name := [97], data := [.int .int 1, .int .int 2] })] (-(2 ^ 63))) =
     [([97], { name := [97], data := [.nil, .nil] })] := by decide
